@@ -1,6 +1,6 @@
 """C07 — each request concludes exactly once despite loss, duplication and delay (DESIGN.md §4 C07, design/C07.md)."""
 import itertools, re
-from vlib import common as C, simlib
+from vlib import common as C, simlib, msglib
 
 MANIFEST = {
     "text": "Lean theorems about M, the transcription of the client side of coap_dispatch/handle_response, of the message layer "
@@ -35,7 +35,21 @@ MANIFEST = {
             "after the last one, followed by the response, is reported as 'NACK and response' (never both) and is NOT taken for the open "
             "finding (whose NACK is on time); schedules in which only the LAST transmission(s) of a request get through are generated "
             "routinely. OBSERVATION ONLY (no theorem, no model): op xchg2 runs TWO client sessions with equal message ids "
-            "in one context (shared context->sendqueue) and judges the implementation's trace by the oracle alone.",
+            "in one context (shared context->sendqueue) and judges the implementation's trace by the oracle alone."
+            " SEVERAL SESSIONS OF ONE CONTEXT ('one exchange outstanding per session'; the sessions share context->sendqueue and may "
+            "use equal message ids): on the model of that queue and of the message layer with any number of sessions (Coap.SQ / "
+            "Coap.Msg / Coap.MsgX, tied to the compiled code by op msg) coap_remove_from_queue is proved to be keyed by session AND "
+            "id - every other entry, in particular every entry of another session with the same id, keeps its place and deadline "
+            "(shared_queue_remove_keeps_everybody_else, shared_queue_remove_other_sessions_untouched, shared_queue_remove_takes_own); "
+            "an Empty ACK / RST / invalid ACK / piggybacked response processed on one session leaves every other session's con_active, "
+            "delay queue and queued Confirmables as they were (reply_concludes_own_session_only, "
+            "piggybacked_reply_concludes_own_session_only); over every run with any interleaving and any id collisions a request "
+            "accepted once and no longer pending has been concluded exactly once, by its NACK or by a reply received on ITS session "
+            "(shared_queue_exactly_once_per_session, reply_on_other_session_concludes_nothing, "
+            "replies_on_other_sessions_never_conclude). Checked on the implementation: 2..6 sessions with colliding ids, every queue "
+            "order of the colliding nodes, lost / Empty ACK / piggybacked / duplicated / RST replies - per request response-handler "
+            "calls + NACKs counted on its own session (never both, twice, neither), no retransmission after its reply, exact trace "
+            "equality with the model.",
     "note": "PARTIAL: open finding unsolicited_response_delivered - the client keeps no record of outstanding tokens, so a response "
             "arriving after the NACK, or a second response message from a server that processed a retransmitted request again, is "
             "delivered again; the theorems' hypotheses exclude exactly that: the server piggybacks or de-duplicates (then 'one response "
@@ -46,12 +60,15 @@ MANIFEST = {
             "theorems (Sys: logs of transmitted datagrams, any copy deliverable) is an abstraction of the harness event loop Sim.run, "
             "not proved equal to it. For the out-of-RFC personality 'da' only 'never twice' and the hypothesis-free clauses are claimed "
             "(an ACK whose mid matches nothing does not take the request off the retransmission queue: observation O5). Several "
-            "sessions sharing one context's send queue are not modelled (C06 models that queue); xchg2 is judged by the oracle only. Trusted: Lean kernel (+ propext, Classical.choice, Quot.sound), harness/exchange.c + sim_core.h, "
+            "sessions sharing one context's send queue: the run-level exactly-once theorem is over the message-layer alphabet (Empty ACK, "
+            "RST, invalid ACK, separate response); for piggybacked responses with several sessions the step theorem and the trace tie are "
+            "what is shown; the server personalities / lossy network of xchg are not combined with several sessions (xchg2 is judged by "
+            "the oracle only). Trusted: Lean kernel (+ propext, Classical.choice, Quot.sound), harness/exchange.c + sim_core.h, "
             "generators and oracle, the hand transcription M (checked against the compiled code on the schedules run only).",
     "design_ref": "DESIGN.md §4 C07, design/C07.md",
 }
 LEAN_MODULES = ["CoapVerif.Props.C07", "CoapVerif.Props.C07Late", "CoapVerif.Props.C07Sim", "CoapVerif.Props.C07Pers",
-                "CoapVerif.Props.C07Loop"]
+                "CoapVerif.Props.C07Loop", "CoapVerif.Props.C07Shared"]
 NAMESPACE = "Coap.C07"
 REQUIRED_THEOREMS = ["exactly_once_partial", "response_stops_retransmission", "con_response_always_acked",
                      "fail_verdict_resets", "non_delivered_once_per_datagram", "at_most_one_conclusion",
@@ -75,7 +92,14 @@ REQUIRED_THEOREMS = ["exactly_once_partial", "response_stops_retransmission", "c
                      # round 6: what DOES hold in the closed loop for dn / da, every run of Sys, and read on Sim.run
                      "closed_loop_dn", "closed_loop_dn_never_both", "closed_loop_da", "closed_loop_da_both_iff",
                      "closed_loop_da_at_most_once", "closed_loop_da_same_mid_partial",
-                     "sim_closed_loop_dn", "sim_closed_loop_dn_never_both", "sim_closed_loop_da"]
+                     "sim_closed_loop_dn", "sim_closed_loop_dn_never_both", "sim_closed_loop_da",
+                     # several sessions of one context share the send queue (message ids may collide): removal is by (session, id),
+                     # a reply concludes on its own session only, exactly once per session over every interleaving
+                     "shared_queue_remove_keeps_everybody_else", "shared_queue_remove_other_sessions_untouched",
+                     "shared_queue_remove_takes_own", "reply_concludes_own_session_only",
+                     "piggybacked_reply_concludes_own_session_only", "reply_on_other_session_concludes_nothing",
+                     "shared_queue_exactly_once_per_session", "shared_queue_at_most_once_per_session",
+                     "replies_on_other_sessions_never_conclude"]
 RULE = ("schedules for harness/exchange.c (real client + real server context, virtual clock, scripted network): server personality "
         "(piggyback, coap_async delayed / triggered, application-delayed separate CON / NON / ACK-typed-with-own-mid, each with and "
         "without application-level request de-duplication) x request token (default 2 bytes, zero-length, 1 byte, 2..8 bytes) x fate of every datagram in order of transmission (deliver after d ms / drop / duplicate) x scripted "
@@ -84,10 +108,14 @@ RULE = ("schedules for harness/exchange.c (real client + real server context, vi
         "loss/dup/delay beyond; op xchg2: the same requests on two client sessions of one context with equal message ids, every drop "
         "pattern over the first 8 datagrams per personality + random schedules; 'last chance': the first 3 / 4 / 5 transmissions lost, then "
         "every loss/delay pattern (1, 700, 1999 ms) over the next three datagrams per personality, and random runs with a block of 3..9 "
-        "losses followed by deliveries with delays below ACK_TIMEOUT; "
+        "losses followed by deliveries with delays below ACK_TIMEOUT; op msg (harness/msg.c): 2..6 sessions of one context, rounds in which "
+        "every session sends one request (message ids equal between sessions, any order, any initial timeout), the k-th datagram meets the "
+        "k-th fate (lost / Empty ACK / piggybacked response / duplicate / RST, delays 1..1999 ms), the I/O loop runs until nothing is pending "
+        "before the next round; exhaustive: 3 sessions x 4 collision patterns x 6 deadline orders x 4^3 fates, 4 sessions x 24 orders x 2^4; "
         "non-trivial = distinct schedule in which the response handler or the NACK handler ran")
 TRUSTED_BASE = ["Lean 4.33 kernel; axioms allowed: propext, Classical.choice, Quot.sound (audited per theorem each run)",
                 "harness/exchange.c + harness/sim_core.h (virtual clock, scripted network, simulation loop), generators, the trace oracle in props/C07.py",
+                "harness/msg.c + Driver/Msg.lean (scenario interpreter of op msg, shared with C06 / C08), vlib/msglib.py (trace parsing, tie)",
                 "M (CoapVerif/Model/Exchange.lean) is a hand transcription of coap_dispatch/handle_response/coap_send_pdu/coap_retransmit/"
                 "coap_session_connected/coap_cancel_all_messages and of the async gate of handle_request; checked against the compiled code "
                 "by exact trace equality on the schedules run only"]
@@ -107,6 +135,13 @@ PERS = ["pb", "ac", "ac+", "at", "at+", "dc", "dc+", "dn", "dn+", "da", "da+"]
 
 def harness(ctx):
     return simlib.build_sim_harness("exchange")
+
+
+# op `msg` (harness/msg.c, model Coap.Msg / Coap.MsgX through Driver/Msg.lean - the scenario interpreter C06 / C08 use): ONE client
+# context with SEVERAL sessions whose Confirmables share context->sendqueue.  C07 runs its own family of such lines
+# (shared_queue() below: one exchange outstanding PER SESSION, message ids colliding between sessions) and judges them with its own
+# conclusion-counting oracle (oracle_msg); the tie to M is the exact trace comparison of vlib/msglib.py.
+HARNESS_FOR_OP = {"msg": lambda ctx: msglib.harness(ctx)}
 
 
 # --------------------------------------------------------------------------------------------- generator
@@ -174,6 +209,9 @@ def generate(ctx, escalate=False):
     # exchange is decided by what happens to the LAST transmission(s) and in the wait after them (T << MAX_RETRANSMIT): every
     # loss / delay pattern (delays up to just under ACK_TIMEOUT) over the next three datagrams, shortest / longest initial timeout
     out += last_chance(rng, 25000 if thorough else 2500)   # last: the random streams above stay as they were
+    # several sessions of one context, one exchange outstanding per session, equal message ids in flight on different sessions
+    # (seeded C07-14); appended after everything else for the same reason
+    out += shared_queue(rng, 40000 if thorough else 4000)
     return out
 
 
@@ -203,6 +241,60 @@ def last_chance(rng, nrand=2500):
         out.append(line(rng.choice(PERS), rng.choice([1, 50, 300, 500, 1999, 2500]), cm, cm if rng.random() < 0.3 else rng.randrange(65536),
                         rng.choice([0, 255, rng.randrange(256)]), rng.choice([0, 255, rng.randrange(256)]), "q", reqs,
                         "".join(rng.choice("ooof") for _ in range(rng.choice([0, 0, 4]))), fates, op=("xchg2" if two else "xchg")))
+    return out
+
+
+# ------------------------------------------------------------------------- several sessions, one send queue (op `msg`)
+def sq_line(nsess, fates, evs, maxrtx=4):
+    """one `msg` line: nsess UDP sessions of ONE context (default ACK_TIMEOUT 2 s, ACK_RANDOM_FACTOR 1.5, NSTART 1)"""
+    return "msg %s %s %s" % (",".join([msglib.sess_word((2, 0, 1, 500, maxrtx), 1)] * nsess), ",".join(fates) or "-", " ".join(evs))
+
+
+def shared_queue(rng, nrand=4000):
+    """"... with one exchange outstanding PER SESSION": the sessions of a context keep their Confirmables in ONE retransmission queue
+    (context->sendqueue) and choose their message ids independently (random start value per session), so requests with EQUAL message
+    ids on different sessions are in that queue together.  Every request must still conclude exactly once, by the reply that arrives
+    on ITS session.  A line = rounds; in a round every session sends (at most) one request, in any order and with any initial timeout
+    (so the colliding nodes sit anywhere in the queue: head, middle, tail), the scripted peer answers the k-th datagram with the k-th
+    fate (lost, Empty ACK, piggybacked response, its duplicate, RST; every delay < ACK_TIMEOUT) and `g:3000` runs the I/O loop until
+    nothing is pending - only then does the next round start (D1 on every session)."""
+    out = []
+    # exhaustive: three sessions, every way two or three of them carry the same id, every order of the three deadlines, every fate
+    # of the first transmission of each
+    for mids in ((1000, 1000, 1000), (1001, 1000, 1000), (1000, 1001, 1000), (1000, 1000, 1001)):
+        for rb in itertools.permutations((0, 128, 255)):
+            for pat in itertools.product(["d", "a50", "p50", "r50"], repeat=3):
+                out.append(sq_line(3, list(pat), ["s:%d:c:%d:%d" % (i, mids[i], rb[i]) for i in range(3)] + ["g:3000"]))
+    # four sessions, one id, every order of the four deadlines, answered / lost in every combination
+    for rb in itertools.permutations((0, 85, 170, 255)):
+        for pat in itertools.product(["d", "p700"], repeat=4):
+            out.append(sq_line(4, list(pat), ["s:%d:c:%d:%d" % (i, 65535, rb[i]) for i in range(4)] + ["g:3000"], maxrtx=2))
+    # (delays >= 1: `g` of harness/msg.c sleeps until the next arrival and delivers it when the clock gets there - an arrival at the
+    # very instant of the transmission is only delivered once something else advances the clock)
+    dl = lambda: rng.choice([1, 1, 2, 50, 700, 1500, 1999, 1 + rng.randrange(1999)])
+    for _ in range(nrand):
+        ns = rng.choice([2, 3, 3, 3, 4, 4, 5, 6])
+        base = [rng.choice([1000, 1000, 1000, 65535, rng.randrange(65536)]) for _ in range(ns)]
+        evs, nreq = [], 0
+        for k in range(rng.choice([1, 1, 2, 3])):
+            order = list(range(ns))
+            rng.shuffle(order)
+            for s in order:
+                if rng.random() < 0.15:
+                    continue                      # this session sits the round out
+                evs.append("s:%d:%s:%d:%d" % (s, "c" if rng.random() < 0.9 else "n", (base[s] + k) % 65536, rng.choice([0, 255, 128, rng.randrange(256)])))
+                nreq += 1
+                if rng.random() < 0.3:
+                    evs.append("t:%d" % rng.choice([0, 1, 50, 400, 999, 1500]))
+            evs.append("g:3000")
+        fates = []
+        for _ in range(rng.randint(0, 3 * nreq)):
+            c = rng.random()
+            fates.append("d" if c < 0.35 else "a%d" % dl() if c < 0.47 else "p%d" % dl() if c < 0.78 else "P%d+%d" % (dl(), dl()) if c < 0.88
+                         else "r%d" % dl() if c < 0.95 else "A%d+%d" % (dl(), dl()))
+        if rng.random() < 0.3:
+            fates += ["p%d" % dl()] * rng.choice([1, 3, 8])
+        out.append(sq_line(ns, fates, evs, maxrtx=rng.choice([4, 4, 4, 2, 1])))
     return out
 
 
@@ -407,6 +499,119 @@ def oracle(inp, trace):
     return None
 
 
+MSG_FAMILY_EVS = ("s", "t", "n", "g")
+
+
+def oracle_msg(inp, trace):
+    """C07 read on the trace of I alone for a `msg` line of the family shared_queue(): several sessions of one context, one exchange
+    outstanding per session, possibly EQUAL message ids in flight on different sessions.  Per Confirmable request (session, mid):
+    conclusions = response-handler calls on ITS session carrying ITS message id (the responses of this family are piggybacked) + NACK
+    handler calls for it; never both, never twice, never neither once nothing is pending (unless an Empty ACK arrived and no response
+    followed: D5); nothing is transmitted again after an ACK / RST with its id arrived ON ITS SESSION; a handler call needs an arrival.
+    Returns (kind, why) or None; lines outside the family (other events / fates, delays >= ACK_TIMEOUT, a session with two requests
+    between two quiescent points) are not judged."""
+    if trace is None or trace.startswith("crash") or trace.startswith("bad-op"):
+        return ("clause", "harness: %s" % (trace or "no output")[:200])
+    it = msglib.toks(trace)
+    sess, fates, evs, steps = msglib.walk(inp, it)
+    if len(steps) != len(evs):
+        return None
+    if any(e.split(":")[0] not in MSG_FAMILY_EVS for e in evs) or any(f[0] not in "daAprPR" for f in fates):
+        return None
+    ato = min(1000 * p[0] + p[1] for p in sess)
+    if any(not (1 <= int(d) < ato) for f in fates if f != "d" for d in f[1:].split("+")):
+        return None
+    busy, subs = set(), set()
+    for e in evs:           # D1 per session, on the input: between two requests of a session the I/O loop runs until nothing is pending
+        f = e.split(":")
+        if f[0] == "s":
+            if int(f[1]) in busy or (int(f[1]), int(f[3])) in subs or int(f[1]) >= len(sess):
+                return None
+            busy.add(int(f[1]))
+            subs.add((int(f[1]), int(f[3])))
+        elif f[0] == "g" and int(f[1]) >= 200:
+            busy.clear()
+    req, nfate, last_arrival = {}, 0, 0
+    for ev, ts, dump in steps:
+        f = ev.split(":")
+        if f[0] == "s" and f[2] == "c" and any(msglib.SUB.match(t) and t != "sub=rej" for t in ts):
+            req[(int(f[1]), int(f[3]))] = {"tx": [], "rsp": [], "nack": [], "arr": []}
+        for t in ts:
+            m = msglib.TX.match(t) or msglib.TXF.match(t)
+            if m:
+                tm, s, kind, mid = int(m.group(1)), int(m.group(2)), m.group(3), int(m.group(4))
+                fate = fates[nfate] if nfate < len(fates) else "d"       # the scripted peer: k-th datagram, k-th fate
+                nfate += 1
+                r = req.get((s, mid))
+                if kind == "C" and r is None:
+                    return ("clause", "a Confirmable with message id %d is transmitted on session %d at %d: no such request was accepted there" % (mid, s, tm))
+                if kind == "C":
+                    r["tx"].append(tm)
+                    if fate[0] in "aAprPR":
+                        for d in fate[1:].split("+"):
+                            r["arr"].append((tm + int(d), fate[0].lower()))
+                            last_arrival = max(last_arrival, tm + int(d))
+                continue
+            m = msglib.RSP.match(t)
+            if m:
+                tm, s, mid = int(m.group(1)), int(m.group(2)), int(m.group(3))
+                if (s, mid) not in req:
+                    return ("clause", "response handler called at %d on session %d with message id %d: no request with that id is outstanding there" % (tm, s, mid))
+                req[(s, mid)]["rsp"].append(tm)
+                continue
+            m = msglib.NACK.match(t)
+            if m and m.group(1) == "nack":
+                tm, s, reason, mid = int(m.group(2)), int(m.group(3)), m.group(4), int(m.group(5))
+                if (s, mid) not in req:
+                    return ("clause", "NACK handler (%s) called at %d on session %d for message id %d: no Confirmable with that id was sent there" % (reason, tm, s, mid))
+                req[(s, mid)]["nack"].append((tm, reason))
+    ev, ts, (ca, dq, q) = steps[-1]
+    ws = [msglib.W.match(t) for t in ts if t.startswith("w@")]
+    quiet = (ev.split(":")[0] == "g" and ws and ws[-1] is not None and int(ws[-1].group(2)) == 0 and int(ws[-1].group(3)) == 0 and not q
+             and last_arrival <= int(ws[-1].group(1)))
+    others = lambda s, mid: [s2 for (s2, m2) in req if m2 == mid and s2 != s]
+    found = []
+    for (s, mid), r in sorted(req.items()):
+        who = "request mid=%d of session %d" % (mid, s)
+        shared = others(s, mid)
+        if shared:
+            who += " (session%s %s had the same message id in flight in the same send queue)" % ("s" if len(shared) > 1 else "", ",".join(map(str, shared)))
+        arr = sorted(r["arr"])
+        n = len(r["rsp"]) + len(r["nack"])
+        if r["rsp"] and r["nack"]:
+            found.append((0, "once", "never both: %s was concluded by the response handler at %d AND by the NACK handler (%s) at %d" % (
+                who, r["rsp"][0], r["nack"][0][1], r["nack"][0][0])))
+        elif n > 1:
+            found.append((0, "once", "never twice: %s was concluded %d times (response handler at %s, NACK at %s)" % (
+                who, n, r["rsp"], [a for a, _ in r["nack"]])))
+        if n == 0 and quiet and not any(k == "a" for _, k in arr):
+            found.append((1, "once", "never neither: %s was transmitted %d time(s) and concluded neither by a response nor by a NACK although nothing "
+                                      "is pending any more (wait 0, empty send queue, con_active %s)" % (who, len(r["tx"]), ca)))
+        if arr:
+            t0, k0 = arr[0]
+            what = {"a": "the Empty ACK", "p": "the piggybacked response", "r": "the RST"}[k0]
+            late = [t for t in r["tx"] if t > t0]
+            if late:
+                found.append((2, "clause", "response_stops_retransmission: %s was retransmitted at %d after %s carrying its id arrived on its "
+                                           "session at %d" % (who, late[0], what, t0)))
+            lost = [a for a, why in r["nack"] if why == "retries" and a > t0]
+            if lost and not (r["rsp"] and r["nack"]):
+                found.append((2, "once", "%s was given up (TOO_MANY_RETRIES) at %d after %s carrying its id arrived on its session at %d" % (who, lost[0], what, t0)))
+        for t in r["rsp"]:
+            if not any(a == t and k == "p" for a, k in arr):
+                found.append((3, "clause", "response handler called at %d for %s although no response for it arrived then" % (t, who)))
+        for t, why in r["nack"]:
+            if why == "retries" and len([x for x in r["tx"] if x <= t]) != sess[s][4] + 1:
+                found.append((3, "clause", "giveup_never_premature: %s given up at %d after %d transmission(s), 1 + MAX_RETRANSMIT = %d" % (
+                    who, t, len([x for x in r["tx"] if x <= t]), sess[s][4] + 1)))
+            if why == "rst" and not any(a == t and k == "r" for a, k in arr):
+                found.append((3, "clause", "NACK (RST) at %d for %s although no RST for it arrived then" % (t, who)))
+    if found:
+        found.sort(key=lambda x: x[0])
+        return (found[0][1], found[0][2])
+    return None
+
+
 MAX_RETRANSMIT = 4
 
 
@@ -432,6 +637,13 @@ def premature_giveup(ev, r):
 
 def judge(ctx, c):
     i, m = c["impl"], c["model"]
+    if c["input"].startswith("msg "):
+        # several sessions sharing the context's send queue: C07's own oracle on I's trace; tie = exact trace equality with Coap.Msg / MsgX
+        v = oracle_msg(c["input"], i)
+        if v:
+            return ("spec", "%s: shared send queue: %s" % (v[0], v[1]))
+        t = msglib.judge_msg(ctx, c, lambda line, it: None)
+        return ("tie", t[1]) if t else None
     v = oracle(c["input"], i)
     if v:
         return ("spec", "%s: %s" % (v[0], v[1]))
@@ -464,6 +676,8 @@ def nontrivial(c):
 def classify(c):
     w = c["input"].split()
     i = c["impl"] or ""
+    if w[0] == "msg":
+        return "msg%d:%s" % (len(w[1].split(",")), "nack" if " nack@" in i else ("rsp" if " rsp@" in i else "none"))
     return "%s%s:%s:%s" % ("2x" if w[0] == "xchg2" else "", w[1], w[7], "nack" if " nack@" in i else ("rsp" if " rsp@" in i else "none"))
 
 
@@ -473,6 +687,18 @@ def search(ctx, tie_breaks, proof):
     out = []
     for c in tie_breaks[:40]:
         w = c["input"].split()
+        if w[0] == "msg":
+            # the same sessions and requests under other fates (answered / lost / duplicated / reset in other places)
+            for _ in range(150):
+                f = [] if w[2] == "-" else w[2].split(",")
+                for _ in range(rng.choice([1, 2, 3])):
+                    nf = rng.choice(["d", "p%d" % rdelay(rng), "a%d" % rdelay(rng), "r%d" % rdelay(rng), "P%d+%d" % (rdelay(rng), rdelay(rng))])
+                    if f and rng.random() < 0.7:
+                        f[rng.randrange(len(f))] = nf
+                    else:
+                        f.append(nf)
+                out.append(" ".join(w[:2] + [",".join(f)] + w[3:]))
+            continue
         fates = [] if w[10] == "-" else w[10].split(",")
         for _ in range(150):
             f = list(fates)
@@ -497,6 +723,8 @@ def shrink(ctx, case):
     from vlib.runner import diff_side
     import props.C07 as me
     kind = case["why"].split(":")[0]
+    if case["input"].startswith("msg "):
+        return msglib.shrink_msg(ctx, me, case, judge)
     best = case
     for _ in range(6):
         w = best["input"].split()
